@@ -15,6 +15,11 @@ def plan(tier, ctx):
         for fn in sorted(s[:-len("_dispatched")] for s in img.symbols if s.endswith("_dispatched")):
             qs.append(Query("resolver/%s/%s" % (key, fn), R, dict(file=key, fn=fn), core=True, family="resolver/" + key))
             n += 1
+    # cross-resolver agreement: ec_init_tables writes tables in the format (32-byte nibble tables vs 8-byte GFNI
+    # matrices) that the encode/update implementation selected on the same CPU must expect
+    qs.append(Query("agreement/ec_table_format", "harness.C16.x86:agreement_query",
+                    dict(group=[["ec", "ec_init_tables"], ["ec", "ec_encode_data"], ["ec", "ec_encode_data_update"]], family_regex="gfni$"),
+                    core=True, family="agreement"))
     axioms = [t for t, _ in Cfg().consistent()]
 
     def finish(c, results):
